@@ -13,3 +13,4 @@ done
 git -C /repo checkout -- . && git -C /repo clean -fdq
 # the runs above rewrote generated files and evidence from the patched tree: restore the committed ones
 git -C /verif checkout -- coq/theories/Facts.v coq/theories/SrcConsts.v coq/theories/BlockFacts.v evidence 2>/dev/null
+for f in /verif/coq/theories/Gen[A-Z]*.v /verif/coq/gotrans_index.json; do case "$f" in *GenTie*) ;; *) git -C /verif checkout -- "$f" 2>/dev/null;; esac; done
